@@ -12,7 +12,7 @@ import sys
 ROOT = os.path.dirname(os.path.dirname(os.path.abspath(__file__)))
 REVERTS = ["c09-revert-f1", "c10-revert-f2", "c18-revert-f3", "c19-revert-f4-named-scanner", "c04-revert-f4-contains-named-args",
            "c13-revert-f6", "c13-revert-f7", "c20-revert-f9", "c05-revert-f10", "c08-revert-f11", "c13-revert-f14", "c11-revert-f15",
-           "c12-revert-f16", "c19-revert-f17", "c05-revert-f21", "c10-revert-f22", "c08-revert-f23"]
+           "c12-revert-f16", "c19-revert-f17", "c05-revert-f21", "c10-revert-f22", "c08-revert-f23", "c15-revert-f8", "c15-daily-plus-24h"]
 
 
 def main():
